@@ -246,6 +246,24 @@ func main() {
 		}
 		merge(local)
 	})
+	// every string length up to the sweep maximum (one special unit at the start / middle / end) as message,
+	// logger name and field value
+	strMax := 300
+	if thorough {
+		strMax = 1100
+	}
+	sweep := encx.LengthSweepStrings(strMax)
+	par.For(32, func(sh int) {
+		local := map[string]struct{}{}
+		enc := zapcore.NewConsoleEncoder(c.EncoderConfig())
+		for si := sh; si < len(sweep); si += 32 {
+			se := e
+			se.Message, se.Name = sweep[si], sweep[si]
+			check(run, c, enc, se, encx.Placement{Call: []*encx.Spec{encx.StringLeaf(sweep[si])}}, "string-length", local)
+			check(run, c, enc, se, encx.Placement{With: [][]*encx.Spec{{encx.StringLeaf(sweep[si])}}}, "string-length", local)
+		}
+		merge(local)
+	})
 	// full leaf alphabet in every context class
 	par.For(len(leaves), func(i int) {
 		local := map[string]struct{}{}
@@ -277,6 +295,7 @@ func main() {
 		"configuration product as in C01 (12320 key/sub-encoder combinations incl. nil and no-op) x entry variants x separators {default, |, space, ::, multi-byte} x line endings; messages may be empty (the message column is present whenever its key is set) except where it would be the line's only column; function names are non-empty (whether an empty function name is 'a value' is not determined)",
 		"a nil or no-op sub-encoder yields no column; a nil name encoder falls back to the full name (documented)",
 		"sequences of <= max_tree_nodes reflected values (encodable / unencodable / failing json.Marshaler / array that carries on after unencodable elements) under zap's default reflection encoder and under a user-supplied streaming NewReflectedEncoder that fails after partial output",
+		"one string of every length up to the stated sweep maximum, with one special unit (quote, newline, invalid byte, two-byte rune) at the start / middle / end, as message, logger name and field value",
 		"the field object is compared as a decoded tree (whitespace-insensitive) with the same reference tree as C02",
 	}
 	run.Finish(map[string]any{
@@ -286,10 +305,11 @@ func main() {
 		"samples": []any{
 			map[string]any{"config": cfgs[len(cfgs)/2].String(), "entry": ents[len(ents)-1].String(), "fields": describe(placements[3])},
 		},
-		"exhaustive":     true,
-		"configurations": len(cfgs),
-		"entry_variants": len(ents),
-		"max_tree_nodes": nodes,
-		"caller_paths":   len(paths),
+		"exhaustive":              true,
+		"configurations":          len(cfgs),
+		"entry_variants":          len(ents),
+		"max_tree_nodes":          nodes,
+		"string_length_sweep_max": strMax,
+		"caller_paths":            len(paths),
 	})
 }
